@@ -977,3 +977,156 @@ Theorem encode_offsets_gap_free it items i o :
   nth_error (offsets_from 0 (item_sizes it items)) i = Some o ->
   o = zsum (firstn i (item_sizes it items)).
 Proof. intros H. rewrite (offsets_gap_free _ _ _ _ H). lia. Qed.
+
+(* ---------------------------------------------------------------------------------------------- *)
+(* #[type_to_idl(skip)]: the description is a prefix of the runtime layout                          *)
+Lemma fixes_size_fsizes fs : fixes_size fs = fsizes (map erase_fix fs).
+Proof. induction fs as [|f fs IH]; cbn [fixes_size map fsizes]; auto. Qed.
+
+Lemma forallb_firstn {A} (p : A -> bool) k l : forallb p l = true -> forallb p (firstn k l) = true.
+Proof.
+  revert k. induction l as [|a l IH]; intros [|k]; cbn [firstn forallb]; auto.
+  intros H. apply andb_true_iff in H as [H1 H2]. rewrite H1. cbn [andb]. auto.
+Qed.
+
+(* the first k fields of a valid value: their bytes are the first `fixes_size (firstn k fs)` bytes, they are valid
+   on their own, and embedding them gives the first k fields of the embedded value *)
+Lemma skip_prefix_facts fs : forall k bs,
+  length bs = fsizes (map erase_fix fs) -> fvalids (map erase_fix fs) bs = true ->
+  length (firstn (fixes_size (firstn k fs)) bs) = fsizes (map erase_fix (firstn k fs)) /\
+  fvalids (map erase_fix (firstn k fs)) (firstn (fixes_size (firstn k fs)) bs) = true /\
+  embed_fixes (firstn k fs) (firstn (fixes_size (firstn k fs)) bs) = firstn k (embed_fixes fs bs).
+Proof.
+  induction fs as [|x fs IH]; intros k bs Hl Hv.
+  - destruct k; cbn; auto.
+  - destruct k as [|k]; [cbn; auto|].
+    cbn [firstn fixes_size map fsizes fvalids embed_fixes] in *.
+    set (sz := fsize (erase_fix x)) in *. set (m := fixes_size (firstn k fs)).
+    apply andb_true_iff in Hv as [Hv1 Hv2].
+    destruct (IH k (skipn sz bs) ltac:(rewrite skipn_length; lia) Hv2) as (L & V & Em). fold m in L, V, Em.
+    assert (H1 : firstn sz (firstn (sz + m) bs) = firstn sz bs) by (rewrite firstn_firstn; f_equal; lia).
+    assert (H2 : skipn sz (firstn (sz + m) bs) = firstn m (skipn sz bs)) by (now rewrite firstn_skipn_comm).
+    rewrite H1, H2, V, Hv1, Em. repeat split; auto.
+    rewrite firstn_length. rewrite firstn_length, skipn_length in L. lia.
+Qed.
+
+(* a struct whose field k carries the attribute: the description decodes the bytes of the WHOLE value into the
+   fields in front of the marked one and leaves exactly the bytes of the marked and the remaining fields *)
+Theorem idl_skip_struct_prefix fs k defs0 bs :
+  forallb fix_ok fs = true ->
+  length bs = fsizes (map erase_fix fs) -> fvalids (map erase_fix fs) bs = true ->
+  idl_decodes (snd (skip_struct_to_idl fs k defs0)) (fst (skip_struct_to_idl fs k defs0)) bs
+    (IVStruct (firstn k (embed_fixes fs bs))) (skipn (fixes_size (firstn k fs)) bs).
+Proof.
+  intros Hok Hl Hv. unfold skip_struct_to_idl, idl_decodes.
+  destruct (fixes_to_idl (firstn k fs) defs0) as [ts d] eqn:E. cbn [fst snd].
+  assert (Hall : Forall fix_spec (firstn k fs)) by (apply Forall_forall; intros; apply fix_all).
+  destruct (fixes_spec _ Hall _ _ _ (forallb_firstn _ k _ Hok) E) as (He & F & H).
+  destruct (skip_prefix_facts fs k bs Hl Hv) as (L & V & Em).
+  exists (S (S F)). intros f Hf. destruct f as [|[|f]]; try lia. cbn [dec].
+  rewrite nth_last.
+  rewrite <- (firstn_skipn (fixes_size (firstn k fs)) bs) at 1.
+  rewrite (H (d ++ [IStruct ts]) (ext_app _ _) f ltac:(lia) _ _ L V). now rewrite Em.
+Qed.
+
+(* no field marked: the whole struct, nothing left (the XStruct case of the layout theorem) *)
+Corollary idl_skip_struct_none fs defs0 bs :
+  forallb fix_ok fs = true ->
+  length bs = fsizes (map erase_fix fs) -> fvalids (map erase_fix fs) bs = true ->
+  idl_decodes (snd (skip_struct_to_idl fs (length fs) defs0)) (fst (skip_struct_to_idl fs (length fs) defs0)) bs
+    (IVStruct (embed_fixes fs bs)) [].
+Proof.
+  intros Hok Hl Hv. pose proof (idl_skip_struct_prefix fs (length fs) defs0 bs Hok Hl Hv) as H.
+  rewrite firstn_all in H. rewrite fixes_size_fsizes, <- Hl, skipn_all in H.
+  assert (Hn : length (embed_fixes fs bs) = length fs).
+  { clear. revert bs. induction fs as [|x fs IH]; intros bs; cbn [embed_fixes length]; auto. }
+  replace (firstn (length fs) (embed_fixes fs bs)) with (embed_fixes fs bs) in H; auto.
+  rewrite <- Hn at 1. now rewrite firstn_all.
+Qed.
+
+(* enum variants *)
+Lemma skip_variants_spec vs : forall defs0 ivs defs1,
+  skip_variants_ok vs = true -> skip_variants_to_idl vs defs0 = (ivs, defs1) ->
+  ext defs0 defs1 /\
+  forall d p, find_skip_variant d vs = Some p ->
+    match p with
+    | None => find_disc d ivs = Some None
+    | Some (fs, k) =>
+        forallb fix_ok fs = true /\
+        exists ts F, find_disc d ivs = Some (Some (IStruct ts)) /\
+          forall defs2, ext defs1 defs2 -> forall f, (F <= f)%nat -> forall bs rest,
+            length bs = fsizes (map erase_fix (firstn k fs)) -> fvalids (map erase_fix (firstn k fs)) bs = true ->
+            seq (map (dec f defs2) ts) (bs ++ rest) = Some (embed_fixes (firstn k fs) bs, rest)
+    end.
+Proof.
+  induction vs as [|[d' p'] vs IH]; intros defs0 ivs defs1 Hok Ht.
+  - cbn [skip_variants_to_idl] in Ht. inversion Ht; subst. split; [apply ext_refl|]. intros d p Hf. discriminate.
+  - unfold skip_variants_ok in Hok. cbn [forallb fst snd] in Hok. apply andb_true_iff in Hok as [Hok1 Hok2].
+    apply andb_true_iff in Hok1 as [_ Hfs]. fold (skip_variants_ok vs) in Hok2.
+    cbn [skip_variants_to_idl] in Ht. destruct p' as [[fs k]|].
+    + destruct (fixes_to_idl (firstn k fs) defs0) as [ts d1] eqn:E1.
+      destruct (skip_variants_to_idl vs d1) as [ivs' d2] eqn:E2. inversion Ht; subst; clear Ht.
+      assert (Hall : Forall fix_spec (firstn k fs)) by (apply Forall_forall; intros; apply fix_all).
+      destruct (fixes_spec _ Hall _ _ _ (forallb_firstn _ k _ Hfs) E1) as (He1 & F & H).
+      destruct (IH _ _ _ Hok2 E2) as (He2 & H2).
+      split; [eapply ext_trans; eauto|]. intros d p Hf. cbn [find_skip_variant] in Hf.
+      cbn [find_disc]. rewrite le_decode_one. destruct (d' =? d) eqn:Ed.
+      * inversion Hf; subst; clear Hf. split; auto. exists ts, F. split; auto.
+        intros defs2 He f Hf bs rest Hl Hv. apply H; auto. eapply ext_trans; eauto.
+      * apply H2; auto.
+    + destruct (skip_variants_to_idl vs defs0) as [ivs' d2] eqn:E2. inversion Ht; subst; clear Ht.
+      destruct (IH _ _ _ Hok2 E2) as (He2 & H2).
+      split; auto. intros d p Hf. cbn [find_skip_variant] in Hf.
+      cbn [find_disc]. rewrite le_decode_one. destruct (d' =? d) eqn:Ed.
+      * inversion Hf; subst; auto.
+      * apply H2; auto.
+Qed.
+
+(* the variant selected by the discriminant byte: its described fields are read, its marked and remaining fields
+   stay unread; a unit variant reads the discriminant only *)
+Theorem idl_skip_enum_prefix vs defs0 d fs k bs :
+  skip_variants_ok vs = true -> find_skip_variant d vs = Some (Some (fs, k)) ->
+  length bs = fsizes (map erase_fix fs) -> fvalids (map erase_fix fs) bs = true ->
+  idl_decodes (snd (skip_enum_to_idl vs defs0)) (fst (skip_enum_to_idl vs defs0)) (d :: bs)
+    (IVEnum d (Some (IVStruct (firstn k (embed_fixes fs bs))))) (skipn (fixes_size (firstn k fs)) bs).
+Proof.
+  intros Hok Hf Hl Hv. unfold skip_enum_to_idl, idl_decodes.
+  destruct (skip_variants_to_idl vs defs0) as [ivs d1] eqn:E. cbn [fst snd].
+  destruct (skip_variants_spec vs _ _ _ Hok E) as (He & H).
+  destruct (H d _ Hf) as (Hfs & ts & F & Hd & Hs).
+  destruct (skip_prefix_facts fs k bs Hl Hv) as (L & V & Em).
+  exists (S (S F)). intros f Hfu. destruct f as [|[|f]]; try lia. cbn [dec].
+  rewrite nth_last.
+  change (num_width (IPrim P_U8)) with (Some 1). cbv iota beta.
+  change (d :: bs) with ([d] ++ bs). rewrite (take_app_n 1 [d] bs eq_refl).
+  rewrite le_decode_one, Hd.
+  rewrite <- (firstn_skipn (fixes_size (firstn k fs)) bs) at 1.
+  rewrite (Hs (d1 ++ [IEnum (IPrim P_U8) ivs]) (ext_app _ _) f ltac:(lia) _ _ L V). now rewrite Em.
+Qed.
+
+Theorem idl_skip_enum_unit vs defs0 d rest :
+  skip_variants_ok vs = true -> find_skip_variant d vs = Some None ->
+  idl_decodes (snd (skip_enum_to_idl vs defs0)) (fst (skip_enum_to_idl vs defs0)) (d :: rest) (IVEnum d None) rest.
+Proof.
+  intros Hok Hf. unfold skip_enum_to_idl, idl_decodes.
+  destruct (skip_variants_to_idl vs defs0) as [ivs d1] eqn:E. cbn [fst snd].
+  destruct (skip_variants_spec vs _ _ _ Hok E) as (He & H). pose proof (H d _ Hf) as Hd. cbv beta iota in Hd.
+  exists 2%nat. intros f Hfu. destruct f as [|[|f]]; try lia. cbn [dec].
+  rewrite nth_last.
+  change (num_width (IPrim P_U8)) with (Some 1). cbv iota beta.
+  change (d :: rest) with ([d] ++ rest). rewrite (take_app_n 1 [d] rest eq_refl).
+  now rewrite le_decode_one, Hd.
+Qed.
+
+(* leaving out only the marked field (the seeded change C17j) is NOT faithful: the field behind the hole is read from
+   the bytes of the marked one *)
+Theorem idl_skip_hole_refuted :
+  exists fs k bs v r,
+    forallb fix_ok fs = true /\ length bs = fsizes (map erase_fix fs) /\ fvalids (map erase_fix fs) bs = true /\
+    idl_decode 10 (snd (hole_struct_to_idl fs k [])) (fst (hole_struct_to_idl fs k [])) bs = Some (IVStruct v, r) /\
+    nth_error v k <> nth_error (embed_fixes fs bs) (S k).
+Proof.
+  exists [XPrim P_U8; XPrim P_U16; XPrim P_U32], 1%nat, [1; 2; 3; 4; 5; 6; 7],
+         [IVBytes [1]; IVBytes [2; 3; 4; 5]], [6; 7].
+  vm_compute. repeat split; auto; discriminate.
+Qed.
